@@ -21,7 +21,7 @@ RULE = (
     'enumeration), group orbits from pymatgen operation matrices, O(T^2) autocorrelation.  Non-trivial = at least one '
     'bond crosses a cell face in some frame and there are >= 2 clusters; distinct = SHA-1 of (cell, positions).'
 )
-RULE += ' Added in rounds 7-10: unbonded atoms of the satellite species anywhere in the atom table; a second system with the same species sequence and other bonding; near-identity / tiny-rotation / nearly singular / very large transform matrices. Round 13: clusters of different bond length in one cell (up to 1.3 x the shortest) with an unbonded satellite-species atom between 1.5 x the shortest distance of the cell and 1.5 x the shortest bond of a long-bond centre.'
+RULE += ' Added in rounds 7-10: unbonded atoms of the satellite species anywhere in the atom table; a second system with the same species sequence and other bonding; near-identity / tiny-rotation / nearly singular / very large transform matrices. Round 16: symmetrize called with a named group AND explicit operations (the operations win). Round 13: clusters of different bond length in one cell (up to 1.3 x the shortest) with an unbonded satellite-species atom between 1.5 x the shortest distance of the cell and 1.5 x the shortest bond of a long-bond centre.'
 ASSUMPTIONS = [
     'bond length below a fifth of the smallest perpendicular cell width; clusters separated by more than 1.5 bond lengths',
     'pymatgen PointGroup operation matrices are trusted (orthogonality and closure are verified at run time)',
@@ -284,7 +284,14 @@ def run_unit(unit, rng, ctx):
     Rm = np.array([o.rotation_matrix for o in PointGroup(g).symmetry_ops])
     sub = Rm[rng.permutation(len(Rm))[: int(rng.integers(1, len(Rm) + 1))]]
     arg = sub.transpose(1, 2, 0) if len(sub) > 1 or rng.integers(2) else sub[0]
-    sv = np.asarray(ori.symmetrize(sym_ops=arg).vectors)
+    both_args = len(sub) > 1 and unit['i'] % 3 == 0
+    if both_args:
+        # both arguments given: the explicit operations are documented to override the named group
+        g_other = GROUPS[int(rng.integers(len(GROUPS)))]
+        sv = np.asarray(ori.symmetrize(sym_group=g_other, sym_ops=arg).vectors)
+        ctx.count('symmetrize_called_with_group_and_explicit_operations')
+    else:
+        sv = np.asarray(ori.symmetrize(sym_ops=arg).vectors)
     if sv.shape == (T, base.shape[1] * len(sub), 3):
         blocks = sv.reshape(T, base.shape[1], len(sub), 3)
         a1 = np.einsum('kij,tbj->tbki', sub, base)
